@@ -18,10 +18,10 @@ CHECKS = {
          "Bounded (D<=4 quick, D<=6 thorough); several ref-counted registrations of one system command are documented as unsupported and not generated.", "DESIGN.md 5 C07"),
  "C08": ("cobweb-mc", "model_checking", LP,
          "Histories of insert / remove / re-insert / despawn / recursive despawn (entity 1 is a child of entity 0) at top level and inside reactor runs, with type-wide and entity-scoped removal reactors, one or two despawn reactors per entity, a reactor registered mid-history; polls explicit ('flush') or by App::update after every top-level op ('frames', Last schedule). A hook reports when a poll schedules a reaction; the monitor requires a cause for every scheduled reaction (an unreacted removal / despawn for a registration live at that moment), at most one per registration per event, every registration live throughout reacted by the end of the enclosing tree / next poll, and every scheduled reaction run by quiescence.",
-         "Bounded (D<=4 quick, D<=6 thorough); series: flush, frames, systems-chained / systems-unordered (operations issued by real Update systems, every assignment = every order), entity-only, two-comps-ab/ba (two reactive component types polled by one pass).", "DESIGN.md 5 C08, 11.2"),
+         "Bounded (D<=4 quick, D<=6 thorough); series: flush, frames, systems-chained / systems-unordered (operations issued by real Update systems, every assignment = every order), entity-only, two-comps-ab/ba (two reactive component types polled by one pass), despawn-many (several polled reactions of one ref-counted reactor postponed at once), orphan-tracker (an entity that kept its despawn tracker after its only reactor was revoked), frames-plugin-late (reactors added with App::add_reactor before ReactPlugin).", "DESIGN.md 5 C08, 11.2"),
  "C14": ("cobweb-mc", "model_checking", LP,
          "Every accessor (get_mut, set_if_neq equal/different, get_noreact, read, trigger_mutation, trigger_resource_mutation, ReactCommands::insert with value 0/1) on entities that are alive, lack the component, or are despawned between queuing and applying, 1..3 calls per run, with a probe reactor registered type-wide and entity-scoped: reaction count per call (dispatch rule), stored component / resource values (sampled at every marker) must match the abstract state.",
-         "Bounded (N<=3 quick, N<=5 thorough); three routes: ReactiveMut / ReactResMut in a syscall issued by the command and body-time accessors of the issuing system (`accessors`), the single* convenience accessors whenever exactly one entity carries the component (`accessors-single`), the World-level API (`accessors-world`).", "DESIGN.md 5 C14, 11.2"),
+         "Bounded (N<=3 quick, N<=5 thorough); three routes: ReactiveMut / ReactResMut in a syscall issued by the command and body-time accessors of the issuing system (`accessors`), the single* convenience accessors whenever exactly one entity carries the component (`accessors-single`), the World-level API (`accessors-world`), and `accessors-observer` (a plain Bevy observer on OnInsert mirrors inserts onto a second entity through ReactCommands, between an insert and the scheduling of its reactions).", "DESIGN.md 5 C14, 11.2"),
  "C15": ("cobweb-mc", "model_checking", LP,
          "Histories of one-off reactors (7 bundles incl. empty and multi-trigger), fires at top level and from inside runs (self-triggering, several triggers in one tree), revoke at any point, Gc: at most one run, entity gone and no registration left afterwards (dispatch + table cross-check + liveness), dropped without running for an empty bundle.",
          "Bounded (D<=4 quick, D<=6 thorough).", "DESIGN.md 5 C15"),
@@ -32,10 +32,10 @@ CHECKS = {
          "Sequential: every history of prepare / clone / drop / gc / manual despawn / reparent over 3 entities and <= 4 live clones is explored to the fixed point of the reachable (reference-model state, observed liveness, pending-signal count) set (about 25k states with the parametric burst operation (300 entities; thorough also 3000), depth 13), each transition re-executed on the real AutoDespawner / garbage_collect_entities in a fresh App and compared with a counter model (never despawned while a clone exists, despawned with descendants by the first gc after the last drop, exactly one signal per last drop, gc idempotent). Concurrent: loom explores all interleavings (complete DPOR for three 2-worker scenarios; preemption bound 6 for two larger ones in the thorough tier) of clone drops on worker threads against garbage collection on the main thread, on the real source file compiled against loom.",
          "loom models std::sync::Arc; crossbeam's channel is replaced by a linearizable FIFO on loom primitives; if auto_despawn.rs stops compiling stand-alone the loom leg is skipped (reported in the evidence), never turned into a verdict.", "DESIGN.md 5 C10"),
  "C16": ("cobweb-mc", "model_checking", "explicit-state BFS over histories of the real crate against a reference model",
-         "All histories (depth 5 quick, 8 thorough) of add / remove-subset / remove-bundle-spanning-both-entities / fire / despawn / manual run over one WorldReactor and two EntityWorldReactors with two triggers each and two entities, plus a second WorldReactor registered with starting triggers before the plugin is added and a plain reactor added with App::add_reactor; a reference model predicts the exact multiset of runs, the local data each run exposes (as modified by earlier runs), presence of the local-data component on every entity after every step, and that the three reactor systems are never despawned or duplicated.",
-         "Bounded depth; registration multiplicity per trigger capped at 2.", "DESIGN.md 5 C16"),
+         "All histories (depth 5 quick, 8 thorough) of add / remove-subset / remove-bundle-spanning-both-entities / fire / despawn / manual run over one WorldReactor and two EntityWorldReactors with two triggers each and two entities, plus a second WorldReactor registered with starting triggers before the plugin is added and a plain reactor added with App::add_reactor, a third with type-wide component triggers and a fourth with any_entity_event of the event type the first takes as a broadcast; a reference model predicts the exact multiset of runs, the local data each run exposes (as modified by earlier runs), presence of the local-data component on every entity after every step, and that the three reactor systems are never despawned or duplicated.",
+         "Bounded depth; registration multiplicity per trigger capped at 2; states are merged only if the reference-model state AND the implementation's registration tables agree.", "DESIGN.md 5 C16"),
  "C17": ("cobweb-mc", "model_checking", "explicit-state BFS over call sequences of the real crate against a reference map",
-         "All sequences (depth 3 quick, 5 thorough) of calls through syscall / named_syscall / spawned_syscall over 11 targets (ordinary systems f, g and an exclusive system x; two names; three spawned ids; a missing id), each optionally with a chain of nested calls (2 levels quick, 3 thorough) made from the commands the enclosing call queues; a reference map key -> (counter, change-detection cursor) predicts every run, its Local counter, the number of Added<Marker> entities it sees, input, output, command application before return, and Err-without-run for missing / running spawned systems.",
+         "All sequences (depth 3 quick, 5 thorough) of calls through syscall / named_syscall / spawned_syscall over 13 targets (ordinary systems f and g - g takes its Commands inside a ParamSet -, an exclusive system x, a self-despawning spawned system, syscall_once; two names; three spawned ids; a missing id), each optionally with a chain of nested calls (2 levels quick, 3 thorough) made from the commands the enclosing call queues; a reference map key -> (counter, change-detection cursor) predicts every run, its Local counter, the number of Added<Marker> entities it sees, input, output, command application before return, and Err-without-run for missing / running spawned systems.",
          "Same-key recursion modelled as documented (inner state does not persist); keys that differ only by an interchangeable label (g after f, name n1 after n0, second spawned id after the first) are pruned by restricted growth.", "DESIGN.md 5 C17, 11.2"),
  "C02": ("cobweb-mc", "model_checking", LP,
          "Every program with at most N chosen operations over {Run, SysEvent, DespawnSys}x3 actors + Broadcast (preset listeners; plain, erring and exclusive systems; one or two trees) is executed on the real crate; the spec monitor requires for every command the runner reaches exactly one of run / postponed-while-busy / dropped-because-dead, exactly one run per obligation, and nothing pending when the flush returns.",
@@ -45,22 +45,22 @@ CHECKS = {
          "Bounded (N<=3 quick, N<=5 thorough); series rich, tops, faults (listeners that die while events are in flight), variants (exclusive / erring reactors), rich-world (World-level API), excl-flush (exclusive reactor that flushes the world queue before reading: KNOWN-FINDING F6, exit 0); payloads identified by unique ids.", "DESIGN.md 5 C03, 11.4"),
  "C04": ("cobweb-mc", "model_checking", LP,
          "Same programs as C03 plus a probe actor with no registrations run at every script position, an exclusive reactor and an erring reactor; any reader returning data the run's cause does not carry is a violation, as is a second successful SystemEvent::take.",
-         "Bounded (N<=3 quick, N<=5 thorough); a `faults` series aborts deliveries (targets despawned between queuing and applying) and then runs a probe that reacts to nothing.", "DESIGN.md 5 C04"),
+         "Bounded (N<=3 quick, N<=5 thorough); a `faults` series aborts deliveries (targets despawned between queuing and applying) and then runs a probe that reacts to nothing; a `deferred` series has reactors that queue through DeferredWorld::commands() (world queue), judged for reader visibility only.", "DESIGN.md 5 C04"),
  "C05": ("cobweb-mc", "model_checking", LP,
-         "Events with 0..3 listeners (entity-scoped + type-wide, taking and non-taking readers) and fault operations (despawn listener, despawn target entity) placed by earlier listeners between scheduling and running; every payload logs its own Drop; the monitor requires exactly one drop, not before its last live reader finished, immediately when nobody listens, before the tree ends, and no data entity at quiescence.",
+         "Events with 0..3 listeners (entity-scoped + type-wide, taking and non-taking readers) and fault operations (despawn listener, despawn / recursive despawn of the target entity) placed by earlier listeners between scheduling and running; every payload logs its own Drop; the monitor requires exactly one drop, not before its last live reader finished, immediately when nobody listens, before the tree ends, and no data entity at quiescence.",
          "Bounded (N<=4 quick, N<=6 thorough); series faults, faults-world, single, variants, mixed (component / resource reactions nested between the readers of an event), excl-flush (KNOWN-FINDING F6b, exit 0); payload Drop is observed through the payload's own Drop impl.", "DESIGN.md 5 C05, 11.4"),
  "C09": ("cobweb-mc", "model_checking", LP,
          "Runner-core programs with plain commands and kind-rich programs; at every command boundary of every frame the monitor requires that everything the previous command caused is finished or waits for a system that is still executing (weak reading of 'immediately', see DESIGN 3.2), commands of a run are applied in queue order, and postponed commands are replayed before the next command queued after the busy execution's in-line ancestor.",
-         "Bounded (N<=5 quick, N<=6 thorough); series core+nop, core+despawn (systems that vanish during their own run), mixed3+nop (exclusive / erring), rich2; cross-sender order of postponed commands is recorded, not judged; a postponed command of a live system that is discarded is a violation.", "DESIGN.md 5 C09"),
+         "Bounded (N<=5 quick, N<=6 thorough); series core+nop, core+despawn (systems that vanish during their own run), mixed3+nop (exclusive / erring), rich2; cross-sender order of postponed commands is recorded, not judged; a postponed command of a live system that is discarded or dropped on replay is a violation; polled-postponed: several polled reactions of one ref-counted reactor postponed at once.", "DESIGN.md 5 C09"),
  "C11": ("cobweb-mc", "model_checking", LP,
          "At every quiescent point (after every top-level flush) of runner-core and kind-rich programs with several trees per world the framework snapshot (hook) must show counter 0, empty buffer, empty prepared lists, cleared flags, no held handle, every system command with its callback, no scratch commands.",
-         "Series core3-trees, rich2, probe (differential: a fixed probe tree after arbitrary trees must equal the probe tree on a fresh world), chain / chain-watched (auto-despawned trigger entities), owned (a closure owns the last signal of a watched entity and its system vanishes during its own run). Snapshot accessors are read-only hooks.", "DESIGN.md 5 C11, 11.6"),
+         "Series core3-trees, rich2, probe (differential: a fixed probe tree after arbitrary trees must equal the probe tree on a fresh world), chain / chain-watched (auto-despawned trigger entities), owned (a closure owns the last signal of a watched entity and its system vanishes during its own run), once-life, strip, orphan-tracker (despawn notices left in the channel). Snapshot accessors are read-only hooks.", "DESIGN.md 5 C11, 11.6"),
  "C12": ("cobweb-mc", "model_checking", LP,
          "One or two sender runs delivering up to N items of every mix of kinds to busy and idle targets; for postponed deliveries all assignments of runs to pending deliveries are tracked (NFA over per-sender queues) and a violation is reported only if no assignment respects every sender's order.",
-         "Bounded (N<=4 quick, N<=6 thorough); exclusive / erring senders and targets in the deliver2-excl-plain / deliver2-err-excl series.", "DESIGN.md 5 C12"),
+         "Bounded (N<=4 quick, N<=6 thorough); exclusive / erring senders and targets in the deliver2-excl-plain / deliver2-err-excl series; tops-polled sends from the top level while removals wait to be polled; the data rules ('each with its own data') are reported here too.", "DESIGN.md 5 C12"),
  "C13": ("cobweb-mc", "model_checking", LP,
          "Runner-core programs over three registrations of the same closure type (plus exclusive / erring variants): at every run Local counter == captured counter == number of earlier runs of that registration.",
-         "Bounded (N<=4 quick, N<=6 thorough); a `frames` series puts App::update (which clears the world's change trackers) between the trees of exclusive systems; an `app-reactors` series registers three reactors of one closure type through App::add_reactor.", "DESIGN.md 5 C13"),
+         "Bounded (N<=4 quick, N<=6 thorough); a `frames` series puts App::update (which clears the world's change trackers) between the trees of exclusive systems; an `app-reactors` series registers three reactors of one closure type through App::add_reactor; `big-tree` runs one tree of 4200 commands (fixed script) and then the same systems from the top level.", "DESIGN.md 5 C13"),
 }
 
 def main():
